@@ -18,6 +18,7 @@ CONSTANTS
  PinAlloc = FALSE
  MinCap = 0
  MaxFault = 0
+ FxVariants = {0}
 INIT TraceInit
 NEXT TraceNext
 POSTCONDITION Consumed
